@@ -36,7 +36,8 @@ def death_property(death, case):
     """Which property a child death speaks about, and under which key."""
     kind = death["kind"]
     if kind == "deadlock":
-        return ("C06" if case.get("triggers") else "C01"), death["key"]
+        cancels = any(str(t.get("action", "")).startswith("cancel") for t in case.get("triggers") or [])
+        return ("C06" if cancels else "C01"), death["key"]
     if kind == "panic":
         return "C07", death["key"]
     if kind == "fatal":
@@ -62,7 +63,7 @@ def outcome_signature(g, res):
     return "%s|%s|%s|%s" % (g.get("shape"), sorted(g.get("outcome", {}).items()), run.get("out_id"), run.get("err_type"))
 
 
-def run_and_monitor(check, runner, items, props, per_case_timeout=60.0, monitor=None, on_result=None):
+def run_and_monitor(check, runner, items, props, per_case_timeout=60.0, monitor=None, on_result=None, max_reject=0.1):
     """items: list of (case, sem, g). Executes them, runs the monitors, reports violations of `props`.
 
     Deaths are attributed with death_property(); those that speak about another property make the
@@ -99,6 +100,9 @@ def run_and_monitor(check, runner, items, props, per_case_timeout=60.0, monitor=
                 check.report(v.key, "case %s (%s): %s" % (cid, g.get("shape"), v.what), {"case": case, "violation": v.to_json(), "result": strip(res)})
         if on_result:
             on_result(cid, case, sem, g, res, vs)
+    if items and check.extra.get("rejected", 0) > max_reject * len(items):
+        check.fail_broken("%d of %d generated programs were rejected by Prepare (generator problem): %s" % (
+            check.extra["rejected"], len(items), check.extra.get("rejected_samples")))
     return out
 
 
